@@ -3,17 +3,18 @@
 // The real AccountDB / trie NodeDatabase run on top of a recording db.Database written here.
 // For generated multi-block histories of account/storage/code mutations every disk commit
 // (NodeDatabase.Commit) is recorded as the exact sequence of batch.Put calls and batch.Write calls.
-//  (a) direct evaluation of the property on the implementation: for every prefix k of the recorded
-//      puts of every commit (every put is treated as a crash point, batch boundaries included) the
-//      disk "pre-commit + first k puts" is materialised; every known state root whose top node is
-//      present is opened cold (fresh account database, empty caches) and all accounts, storage
-//      slots and code are read back and compared with what was readable before the commit; every
-//      root that was durable before the commit must still be present and readable.
-//  (b) model cases: per history, per commit: the dirty set with the references decoded from the
-//      blobs, the recorded put order, the recorded batches, a visit tree; the Coq model replays the
-//      history (coq/C03/Harness.v).
-//  (c) inventory: no non-test caller of NodeDatabase.Dereference / Cap and no Delete on the state
-//      store (go/ast scan of the repository the harness was built against).
+//
+//	(a) direct evaluation of the property on the implementation: for every prefix k of the recorded
+//	    puts of every commit (every put is treated as a crash point, batch boundaries included) the
+//	    disk "pre-commit + first k puts" is materialised; every known state root whose top node is
+//	    present is opened cold (fresh account database, empty caches) and all accounts, storage
+//	    slots and code are read back and compared with what was readable before the commit; every
+//	    root that was durable before the commit must still be present and readable.
+//	(b) model cases: per history, per commit: the dirty set with the references decoded from the
+//	    blobs, the recorded put order, the recorded batches, a visit tree; the Coq model replays the
+//	    history (coq/C03/Harness.v).
+//	(c) inventory: no non-test caller of NodeDatabase.Dereference / Cap and no Delete on the state
+//	    store (go/ast scan of the repository the harness was built against).
 package main
 
 import (
@@ -62,7 +63,11 @@ type memDB struct {
 	deletes  []string
 	readonly bool
 	writes   int // writes attempted while readonly
+	failAt   int // > 0: the failAt-th batch.Write from now on returns errInjected and writes nothing
+	nWrites  int
 }
+
+var errInjected = errors.New("injected write error (disk full)")
 
 func newMemDB() *memDB { return &memDB{m: map[string][]byte{}} }
 
@@ -94,7 +99,7 @@ func (d *memDB) Delete(key []byte) error {
 	delete(d.m, string(key))
 	return nil
 }
-func (d *memDB) Close()                          {}
+func (d *memDB) Close()                         {}
 func (d *memDB) NewIterator() iterator.Iterator { panic("not supported") }
 func (d *memDB) NewIteratorWithPrefix(prefix []byte) iterator.Iterator {
 	panic("not supported")
@@ -117,6 +122,12 @@ func (b *memBatch) Write() error {
 	if b.db.readonly {
 		b.db.writes++
 		return errors.New("read-only crash image")
+	}
+	if b.db.failAt > 0 {
+		b.db.nWrites++
+		if b.db.nWrites == b.db.failAt {
+			return errInjected
+		}
 	}
 	if b.db.rec {
 		b.db.events = append(b.db.events, event{true, append([]kv{}, b.writes...)})
@@ -146,8 +157,11 @@ type ref struct {
 
 var (
 	emptyRoot     common.Hash
-	emptyCodeHash = common.Hash(sha3.Sum256(nil))
-	zeroHash      common.Hash
+	emptyCodeHash = common.Hash(sha3.Sum256(nil)) // what account_object.go compares with: SHA3-256("")
+	keccakEmpty   = crypto.Keccak256Hash(nil)     // what AccountDB.SetCode stores for empty code
+	// codeStored: is there a blob (dirty or on disk) under this hash in the store being walked
+	codeStored = func(common.Hash) bool { return true }
+	zeroHash   common.Hash
 )
 
 func valueRefs(val []byte, r role, out *[]ref) {
@@ -162,7 +176,13 @@ func valueRefs(val []byte, r role, out *[]ref) {
 		*out = append(*out, ref{a.Root, roleStorage})
 	}
 	if len(a.NFTSetDefinitionHash) > 0 && !bytes.Equal(a.NFTSetDefinitionHash, emptyCodeHash[:]) { // nftSetDefinition()
-		*out = append(*out, ref{common.BytesToHash(a.NFTSetDefinitionHash), roleCode})
+		ch := common.BytesToHash(a.NFTSetDefinitionHash)
+		if ch == keccakEmpty && !codeStored(ch) {
+			// SetCode(addr, nil): nothing was ever stored under Keccak-256(""); the dangling reference is
+			// the zero-length-code finding (reported by readState), not an edge of the node graph
+			return
+		}
+		*out = append(*out, ref{ch, roleCode})
 	}
 }
 
@@ -281,6 +301,9 @@ func (g *graph) walk(tdb *trie.NodeDatabase, h common.Hash, r role) {
 		}
 		g.seen[roleKey{it.h, it.r}] = true
 		g.id(it.h)
+		if it.r != roleCode && (it.h == emptyRoot || it.h == zeroHash) {
+			continue // the empty trie has no node (trie.NewTrie does not resolve it)
+		}
 		blob, err := tdb.Node(it.h)
 		if err != nil || (len(blob) == 0 && it.r != roleCode) {
 			g.missing = append(g.missing, fmt.Sprintf("%x(role %d)", it.h[:6], it.r))
@@ -371,11 +394,16 @@ func readState(database account.AccountDatabase, root common.Hash, u *universe) 
 			code, err := database.ContractCode(common.Hash{}, ch) // the read path of accountObject.Code
 			if err != nil {
 				blob, nerr := database.TrieDB().Node(ch)
-				if nerr != nil || len(blob) != 0 {
+				if ch != keccakEmpty || len(blob) != 0 {
 					return m, "code of " + key + ": " + err.Error(), ""
 				}
-				// the blob IS stored, with length 0: ContractCode reports it as "not found"
-				emptyCode = "account " + key + " code hash " + ch.Hex() + ": " + err.Error()
+				// code of length 0: either a 0-byte blob IS stored (SetCode(addr, []byte{})) and ContractCode
+				// reports it as "not found", or nothing is stored at all (SetCode(addr, nil))
+				how := "0-byte blob stored"
+				if nerr != nil {
+					how = "no blob stored"
+				}
+				emptyCode = "account " + key + " code hash " + ch.Hex() + " (" + how + "): " + err.Error()
 			}
 			m["it/"+key+"/code"] = hex.EncodeToString(code)
 		}
@@ -701,13 +729,17 @@ func (rn *runner) history(p histParams) {
 	for i := 0; i < 3; i++ {
 		codes = append(codes, r.Bytes(1+r.Intn(300)))
 	}
-	if r.Intn(8) == 0 {
-		codes = append(codes, []byte{}) // zero-length code (what CREATE with empty return data deploys)
+	switch r.Intn(12) {
+	case 0:
+		codes = append(codes, []byte{}) // zero-length code, non-nil slice
+	case 1:
+		codes = append(codes, nil) // zero-length code as the EVM passes it (CREATE whose init code returns no data)
 	}
 	disk := newMemDB()
 	database := account.NewDatabase(disk)
 	tdb := database.TrieDB()
 	g := newGraph()
+	codeStored = func(h common.Hash) bool { _, err := tdb.Node(h); return err == nil }
 	shadow := newMemDB() // crash image, follows the disk put by put
 	var roots []*rootInfo
 	known := map[common.Hash]*rootInfo{}
@@ -725,6 +757,11 @@ func (rn *runner) history(p histParams) {
 	}
 	totalPuts := 0
 	emptyCodeSeen := ""
+	var snap *snapshot
+	snapBlock := p.blocks // no restart scenario
+	if r.Intn(2) == 0 {
+		snapBlock = r.Intn(p.blocks)
+	}
 	for b := 0; b < p.blocks; b++ {
 		ops := genBlock(r, u, codes, b == p.big)
 		abandon := b != p.big && r.Intn(8) == 0 // state commit whose disk commit never happens
@@ -739,7 +776,7 @@ func (rn *runner) history(p histParams) {
 		}
 		root, err := adb.Commit(true)
 		if err != nil {
-			if emptyCodeSeen != "" && strings.Contains(err.Error(), "can't load code hash") {
+			if isEmptyCodeErr(err) {
 				// consequence of the zero-length-code finding reported above: the account object was
 				// poisoned by the failed code read and its state commit is refused
 				rn.res.Violate("C03/code:zero-length-code-unreadable", "later state commit fails: "+err.Error(),
@@ -757,7 +794,7 @@ func (rn *runner) history(p histParams) {
 			if ec != "" && emptyCodeSeen == "" {
 				emptyCodeSeen = ec
 				rn.res.Violate("C03/code:zero-length-code-unreadable",
-					"a contract code of length 0 is stored as an empty blob that ContractCode reports as missing: "+ec,
+					"a contract code of length 0 cannot be read back, ContractCode reports it as missing: "+ec,
 					input(map[string]interface{}{"block": b, "root": root.Hex(), "ops_of_this_block": opStrings(ops, 12)}))
 			}
 			if prob != "" {
@@ -793,10 +830,126 @@ func (rn *runner) history(p histParams) {
 				g.bad = append(g.bad, fmt.Sprintf("dirty node %x outside every known root", h[:6]))
 			}
 		}
-		disk.rec, disk.events = true, nil
-		cerr := tdb.Commit(root, false)
-		disk.rec = false
-		events := disk.events
+		attempt := func(failAt int) ([]event, error) {
+			disk.rec, disk.events, disk.failAt, disk.nWrites = true, nil, failAt, 0
+			err := tdb.Commit(root, false)
+			disk.rec, disk.failAt = false, 0
+			return disk.events, err
+		}
+		// raw closure at every single put: the references of the blob just written are on disk
+		applyPut := func(it kv, h common.Hash, k, m int, phase string) {
+			shadow.m[it.k] = it.v
+			for _, c := range g.kids[h] {
+				if _, ok := shadow.m[string(c[:])]; !ok {
+					rn.res.Violate("C03/closed:reference-missing-when-parent-written",
+						fmt.Sprintf("%s: put %d/%d writes node %x whose reference %x is not on disk yet", phase, k, m, h[:8], c[:8]),
+						input(map[string]interface{}{"block": b, "k": k, "puts": m, "phase": phase}))
+				}
+			}
+		}
+		// the crash image as it is now: every known root whose top node is present is opened cold and
+		// read back completely; every durable root must be present. final: Commit(root) reported success.
+		coldCheck := func(k, m int, class string, final bool) int {
+			shadow.readonly = true
+			cold := account.NewDatabase(shadow) // fresh caches for this crash image
+			walked := 0
+			for _, x := range roots {
+				present := x.root == emptyRoot || x.root == zeroHash
+				if !present {
+					_, present = shadow.m[string(x.root[:])]
+				}
+				in := func() map[string]interface{} {
+					return input(map[string]interface{}{"block": b, "k": k, "puts": m, "root": x.root.Hex(), "root_of_block": x.block,
+						"at": class, "ops_of_this_block": opStrings(ops, 12)})
+				}
+				if !present {
+					if x.durable {
+						rn.res.Violate("C03/old-roots:top-node-lost", "root durable before this commit has no top node on disk", in())
+					} else if final && x.root == root {
+						rn.res.Violate("C03/durable:root-missing-after-commit", "Commit reported success but the root node is not on disk", in())
+					}
+					continue
+				}
+				got, prob, _ := readState(cold, x.root, u)
+				walked++
+				what := prob
+				if what == "" {
+					what = diffMaps(x.exp, got)
+				}
+				if what != "" {
+					switch {
+					case x.durable:
+						rn.res.Violate("C03/old-roots:unreadable-after-crash", what, in())
+					case final && x.root == root:
+						rn.res.Violate("C03/durable:committed-root-unreadable", what, in())
+					default:
+						rn.res.Violate("C03/crash:top-node-present-but-not-resolvable", what, in())
+					}
+				}
+			}
+			if shadow.writes > 0 {
+				rn.res.Violate("C03/cold-read-writes", "reading a state wrote to the disk store", input(map[string]interface{}{"block": b, "k": k}))
+				shadow.writes = 0
+			}
+			shadow.readonly = false
+			return walked
+		}
+		var events []event
+		var cerr error
+		var failedPuts []common.Hash
+		committed := false
+		if r.Intn(5) == 0 || (b == p.big && r.Intn(2) == 0) {
+			// first attempt: the j-th batch.Write returns an error (disk full); the batches before it are on disk
+			j := 1
+			if b == p.big {
+				j = 1 + r.Intn(4)
+			}
+			ev, ferr := attempt(j)
+			if ferr == nil { // fewer than j batches: the attempt was a complete commit
+				events, committed = ev, true
+			} else {
+				rn.res.Histogram["commit:first-attempt-write-error"]++
+				if !errors.Is(ferr, errInjected) {
+					rn.res.Violate("C03/write-error:other-error", ferr.Error(), input(map[string]interface{}{"block": b, "failing_write": j}))
+				}
+				still := map[common.Hash]bool{}
+				for _, h := range tdb.Nodes() {
+					still[h] = true
+				}
+				lost := 0
+				for _, h := range dirty {
+					if !still[h] {
+						lost++
+					}
+				}
+				if lost > 0 || len(still) != len(dirty) {
+					rn.res.Violate("C03/write-error:uncached-after-failed-commit",
+						fmt.Sprintf("Commit returned %q but %d of %d dirty nodes left the cache (%d remain): a retry cannot write them", ferr.Error(), lost, len(dirty), len(still)),
+						input(map[string]interface{}{"block": b, "failing_write": j, "root": root.Hex()}))
+				}
+				var fkv []kv
+				for _, e := range ev {
+					for _, it := range e.items {
+						if h, ok := hashOfKey(it.k); ok {
+							failedPuts = append(failedPuts, h)
+							fkv = append(fkv, it)
+						}
+					}
+				}
+				for i, it := range fkv {
+					applyPut(it, failedPuts[i], i+1, len(fkv), "failed attempt")
+				}
+				walked := coldCheck(len(fkv), len(fkv), "write-error:after-failed-commit", false)
+				rn.points++
+				rn.res.Count("write-error:after-failed-commit", fmt.Sprintf("%d/%d/fail%d", p.seed, b, j), walked > 0)
+				if len(fkv) > 0 {
+					rn.res.Histogram["commit:failed-attempt-left-batches-on-disk"]++
+				}
+			}
+		}
+		if !committed {
+			events, cerr = attempt(0)
+		}
 		if cerr != nil {
 			rn.res.Violate("C03/live:disk-commit-error", cerr.Error(), input(map[string]interface{}{"block": b}))
 			return
@@ -852,7 +1005,7 @@ func (rn *runner) history(p histParams) {
 				rn.res.Histogram["dirty-node-with-untracked-reference"]++
 			}
 		}
-		sb.WriteString("] (")
+		sb.WriteString("] " + idList(g, failedPuts) + " (")
 		if terr != nil {
 			rn.res.Histogram["put-order-not-a-postorder-walk"]++
 			rn.res.Note(fmt.Sprintf("history %d block %d: %v", p.seed, b, terr))
@@ -915,26 +1068,19 @@ func (rn *runner) history(p histParams) {
 				sel[k] = true
 			}
 		}
+		snapK := -1
+		if snap == nil && b >= snapBlock {
+			snapK = r.Intn(m + 1)
+			sel[snapK] = true
+		}
 		for k := 0; k <= m; k++ {
 			if k > 0 {
-				it := putKV[k-1]
-				shadow.m[it.k] = it.v
-				// raw closure at every single put: the references of the blob just written are on disk
-				h := puts[k-1]
-				for _, c := range g.kids[h] {
-					if _, ok := shadow.m[string(c[:])]; !ok {
-						rn.res.Violate("C03/closed:reference-missing-when-parent-written",
-							fmt.Sprintf("put %d/%d writes node %x whose reference %x is not on disk yet", k, m, h[:8], c[:8]),
-							input(map[string]interface{}{"block": b, "k": k, "puts": m}))
-					}
-				}
+				applyPut(putKV[k-1], puts[k-1], k, m, "commit")
 			}
 			if !sel[k] {
 				continue
 			}
 			rn.points++
-			shadow.readonly = true
-			cold := account.NewDatabase(shadow) // fresh caches for this crash image
 			class := "crash:mid-commit"
 			switch {
 			case k == 0:
@@ -944,50 +1090,23 @@ func (rn *runner) history(p histParams) {
 			case boundary[k]:
 				class = "crash:batch-boundary"
 			}
-			walked := 0
-			for _, x := range roots {
-				present := x.root == emptyRoot || x.root == zeroHash
-				if !present {
-					_, present = shadow.m[string(x.root[:])]
-				}
-				in := func() map[string]interface{} {
-					return input(map[string]interface{}{"block": b, "k": k, "puts": m, "root": x.root.Hex(), "root_of_block": x.block,
-						"ops_of_this_block": opStrings(ops, 12)})
-				}
-				if !present {
-					if x.durable {
-						rn.res.Violate("C03/old-roots:top-node-lost", "root durable before this commit has no top node on disk", in())
-					} else if k == m && x.root == root {
-						rn.res.Violate("C03/durable:root-missing-after-commit", "Commit reported success but the root node is not on disk", in())
-					}
-					continue
-				}
-				got, prob, _ := readState(cold, x.root, u)
-				walked++
-				what := prob
-				if what == "" {
-					what = diffMaps(x.exp, got)
-				}
-				if what != "" {
-					switch {
-					case x.durable:
-						rn.res.Violate("C03/old-roots:unreadable-after-crash", what, in())
-					case k == m && x.root == root:
-						rn.res.Violate("C03/durable:committed-root-unreadable", what, in())
-					default:
-						rn.res.Violate("C03/crash:top-node-present-but-not-resolvable", what, in())
-					}
-				}
-			}
-			if shadow.writes > 0 {
-				rn.res.Violate("C03/cold-read-writes", "reading a state wrote to the disk store", input(map[string]interface{}{"block": b, "k": k}))
-				shadow.writes = 0
-			}
-			shadow.readonly = false
+			walked := coldCheck(k, m, class, k == m)
 			rn.res.Count(class, fmt.Sprintf("%d/%d/%d", p.seed, b, k), k > 0 && walked > 0)
 			if rn.points%997 == 1 {
 				rn.res.Sample(map[string]interface{}{"history_seed": p.seed, "block": b, "crash_after_put": k, "puts_in_commit": m,
 					"batches": len(batches), "roots_opened_cold": walked, "class": class})
+			}
+			if k == snapK { // the node dies here and is restarted later on this disk
+				snap = &snapshot{m: map[string][]byte{}, block: b, k: k, puts: m}
+				for kk, vv := range shadow.m {
+					snap.m[kk] = vv
+				}
+				for _, x := range roots {
+					_, present := shadow.m[string(x.root[:])]
+					if x.durable || (present && x.root != emptyRoot) {
+						snap.roots = append(snap.roots, x)
+					}
+				}
 			}
 		}
 		if len(shadow.m) != len(disk.m) {
@@ -1009,6 +1128,9 @@ func (rn *runner) history(p histParams) {
 		}
 	}
 	_ = lastDurable
+	if snap != nil {
+		rn.restart(p, r, u, codes, snap, emptyCodeSeen != "", input)
+	}
 	for _, s := range g.missing {
 		rn.res.Violate("C03/live:view-not-closed", "node reachable from a state root is neither dirty nor on disk: "+s, input(nil))
 	}
@@ -1021,6 +1143,211 @@ func (rn *runner) history(p histParams) {
 		desc["puts"] = totalPuts
 		rn.cs.Add(fmt.Sprintf("History %d [\n  %s]", xdb.IdealBatchSize, strings.Join(commitTerms, ";\n  ")), desc)
 	}
+}
+
+// snapshot: the disk at one crash point of one commit and the roots a restarted node may open
+type snapshot struct {
+	m     map[string][]byte
+	roots []*rootInfo
+	block int
+	k     int
+	puts  int
+}
+
+// restart: the node died at the crash point of snap. A new process (fresh node database, empty
+// caches) opens a root whose top node is on that disk, executes more blocks on it and commits
+// them; afterwards every root that was openable at the crash and every new root must be readable
+// cold from the disk alone (orphans of the interrupted commit must not get in the way).
+func (rn *runner) restart(p histParams, r *hx.Rng, u *universe, codes [][]byte, snap *snapshot, poisoned bool, input func(map[string]interface{}) map[string]interface{}) {
+	in := func(extra map[string]interface{}) map[string]interface{} {
+		m := input(extra)
+		m["restart_after_crash"] = map[string]interface{}{"block": snap.block, "k": snap.k, "puts": snap.puts}
+		return m
+	}
+	img := &memDB{m: snap.m}
+	db2 := account.NewDatabase(img)
+	parent := common.Hash{}
+	if len(snap.roots) > 0 {
+		parent = snap.roots[r.Intn(len(snap.roots))].root
+	}
+	all := append([]*rootInfo{}, snap.roots...)
+	nblocks := 1 + r.Intn(3)
+	for b2 := 0; b2 < nblocks; b2++ {
+		adb, err := account.NewAccountDB(parent, db2)
+		if err != nil {
+			rn.res.Violate("C03/restart:open-after-crash", err.Error(), in(map[string]interface{}{"parent": parent.Hex()}))
+			return
+		}
+		ops := genBlock(r, u, codes, false)
+		for _, o := range ops {
+			apply(adb, u, o)
+		}
+		root, err := adb.Commit(true)
+		if err != nil {
+			if isEmptyCodeErr(err) {
+				if !poisoned {
+					rn.res.Violate("C03/code:zero-length-code-unreadable", "state commit fails: "+err.Error(),
+						in(map[string]interface{}{"restart_block": b2, "ops_of_this_block": opStrings(ops, 12)}))
+				}
+				rn.res.Histogram["restart-ended-by-zero-length-code"]++
+				break
+			}
+			rn.res.Violate("C03/restart:state-commit-error", err.Error(), in(map[string]interface{}{"restart_block": b2, "ops": opStrings(ops, 12)}))
+			return
+		}
+		exp, prob, ec := readState(db2, root, u)
+		if ec != "" {
+			if !poisoned {
+				poisoned = true
+				rn.res.Violate("C03/code:zero-length-code-unreadable",
+					"a contract code of length 0 cannot be read back, ContractCode reports it as missing: "+ec,
+					in(map[string]interface{}{"restart_block": b2, "root": root.Hex(), "ops_of_this_block": opStrings(ops, 12)}))
+			}
+		}
+		if prob != "" {
+			rn.res.Violate("C03/restart:unreadable-before-commit", prob, in(map[string]interface{}{"restart_block": b2, "root": root.Hex()}))
+			return
+		}
+		if err := db2.TrieDB().Commit(root, false); err != nil {
+			rn.res.Violate("C03/restart:disk-commit-error", err.Error(), in(map[string]interface{}{"restart_block": b2}))
+			return
+		}
+		all = append(all, &rootInfo{root: root, exp: exp, durable: true, block: 1000 + b2})
+		parent = root
+	}
+	if len(img.deletes) > 0 {
+		rn.res.Violate("C03/append-only:delete-during-commit", fmt.Sprintf("%d Delete calls on the state store after restart", len(img.deletes)), in(nil))
+	}
+	img.readonly = true
+	cold := account.NewDatabase(img)
+	walked := 0
+	for _, x := range all {
+		got, prob, _ := readState(cold, x.root, u)
+		walked++
+		what := prob
+		if what == "" {
+			what = diffMaps(x.exp, got)
+		}
+		if what != "" {
+			key := "C03/restart:old-root-unreadable"
+			if x.block >= 1000 {
+				key = "C03/restart:new-root-unreadable"
+			}
+			rn.res.Violate(key, what, in(map[string]interface{}{"root": x.root.Hex(), "root_of_block": x.block}))
+		}
+	}
+	rn.points++
+	rn.res.Count("restart:continue-on-crash-image", fmt.Sprintf("%d/restart/%d/%d", p.seed, snap.block, snap.k), walked > 0)
+}
+
+// ---------------------------------------------------------------------------------------------
+// the real LevelDB store (middleware/db LDBDatabase + ldbBatch): commit, close, reopen, read cold
+
+type countDB struct {
+	xdb.Database
+	writes, puts, deletes int
+}
+type countBatch struct {
+	xdb.Batch
+	db *countDB
+}
+
+func (d *countDB) NewBatch() xdb.Batch { return &countBatch{d.Database.NewBatch(), d} }
+func (d *countDB) Delete(key []byte) error {
+	d.deletes++
+	return d.Database.Delete(key)
+}
+func (b *countBatch) Put(k, v []byte) error { b.db.puts++; return b.Batch.Put(k, v) }
+func (b *countBatch) Write() error          { b.db.writes++; return b.Batch.Write() }
+
+// leveldbHistory: blocks (one of them several batches large) committed through the production
+// store type; the store is closed and reopened (a new process as far as LevelDB is concerned) and
+// every committed root is read back completely from the reopened store.
+func (rn *runner) leveldbHistory(seed uint64, idx int) {
+	r := hx.NewRng(seed)
+	u := genUniverse(r)
+	codes := [][]byte{r.Bytes(1 + r.Intn(300)), r.Bytes(1 + r.Intn(300))}
+	name := fmt.Sprintf("c03-ldb-%d-%d", idx, seed%100000)
+	input := func(extra map[string]interface{}) map[string]interface{} {
+		m := map[string]interface{}{"leveldb_history_seed": seed, "store": name}
+		for k, v := range extra {
+			m[k] = v
+		}
+		return m
+	}
+	ldb, err := xdb.NewLDBDatabase(name, 8, 8)
+	if err != nil {
+		rn.res.Note("leveldb scenario skipped: " + err.Error())
+		return
+	}
+	cdb := &countDB{Database: ldb}
+	database := account.NewDatabase(cdb)
+	var roots []*rootInfo
+	parent := common.Hash{}
+	blocks := 4 + r.Intn(3)
+	bigAt := 1 + r.Intn(blocks-1)
+	for b := 0; b < blocks; b++ {
+		adb, err := account.NewAccountDB(parent, database)
+		if err != nil {
+			rn.res.Violate("C03/leveldb:open-parent", err.Error(), input(map[string]interface{}{"block": b}))
+			ldb.Close()
+			return
+		}
+		for _, o := range genBlock(r, u, codes, b == bigAt) {
+			apply(adb, u, o)
+		}
+		root, err := adb.Commit(true)
+		if err != nil {
+			rn.res.Violate("C03/leveldb:state-commit-error", err.Error(), input(map[string]interface{}{"block": b}))
+			ldb.Close()
+			return
+		}
+		exp, prob, _ := readState(database, root, u)
+		if prob != "" {
+			rn.res.Violate("C03/leveldb:unreadable-before-commit", prob, input(map[string]interface{}{"block": b}))
+			ldb.Close()
+			return
+		}
+		w0 := cdb.writes
+		if err := database.TrieDB().Commit(root, false); err != nil {
+			rn.res.Violate("C03/leveldb:disk-commit-error", err.Error(), input(map[string]interface{}{"block": b}))
+			ldb.Close()
+			return
+		}
+		if cdb.writes-w0 > 1 {
+			rn.res.Histogram["leveldb:multi-batch-commit"]++
+		}
+		roots = append(roots, &rootInfo{root: root, exp: exp, durable: true, block: b})
+		parent = root
+	}
+	if cdb.deletes > 0 {
+		rn.res.Violate("C03/append-only:delete-during-commit", fmt.Sprintf("%d Delete calls on the LevelDB state store", cdb.deletes), input(nil))
+	}
+	ldb.Close()
+	ldb2, err := xdb.NewLDBDatabase(name, 8, 8)
+	if err != nil {
+		rn.res.Violate("C03/leveldb:reopen", err.Error(), input(nil))
+		return
+	}
+	defer ldb2.Close()
+	cold := account.NewDatabase(ldb2)
+	for _, x := range roots {
+		got, prob, _ := readState(cold, x.root, u)
+		what := prob
+		if what == "" {
+			what = diffMaps(x.exp, got)
+		}
+		if what != "" {
+			rn.res.Violate("C03/leveldb:committed-root-unreadable-after-reopen", what, input(map[string]interface{}{"root": x.root.Hex(), "root_of_block": x.block}))
+		}
+		rn.points++
+		rn.res.Count("leveldb:reopen-and-read-committed-root", fmt.Sprintf("ldb/%d/%d", seed, x.block), true)
+	}
+}
+
+// the state commit refused because an account object was poisoned by a failed read of zero-length code
+func isEmptyCodeErr(err error) bool {
+	return err != nil && strings.Contains(err.Error(), "can't load code hash") && strings.Contains(err.Error(), hex.EncodeToString(keccakEmpty[:]))
 }
 
 func opStrings(ops []op, max int) []string {
@@ -1102,12 +1429,21 @@ func main() {
 	emptyRoot = tr.Hash()
 	_ = crypto.Keccak256Hash
 
-	rng := hx.NewRng(a.Seed)
+	// hx.NewRng(seed) starts the splitmix counter at seed*G: the streams of seeds s and s+1 are the same
+	// stream shifted by one draw. Fork() re-seeds from a hashed output, which makes runs with different
+	// -seed values independent.
+	rng := hx.NewRng(a.Seed).Fork()
 	res := hx.NewResult("one evaluation = one crash point (history, disk commit, k): the disk image 'pre-commit + first k recorded puts' with every known state root " +
 		"whose top node is present opened cold and read back completely (getters over the universe + full iteration of accounts, storage, code) and " +
 		"every previously durable root required present. -n = number of disk commits to generate. " +
 		"non-trivial = distinct crash point with k > 0 at which at least one root was opened cold")
-	cs := hx.NewCases(a.Out, "From V.C03 Require Import Model Harness.\nFrom Coq Require Import NArith.\nOpen Scope N_scope.", "c03case", "check", 3)
+	// the driver evaluates all shards in parallel and every coqc needs ~450 MB just to load std++:
+	// few, larger shards in the thorough tier keep the total memory bounded
+	perShard := 4
+	if a.Tier == "thorough" {
+		perShard = 30
+	}
+	cs := hx.NewCases(a.Out, "From V.C03 Require Import Model Harness.\nFrom Coq Require Import NArith.\nOpen Scope N_scope.", "c03case", "check", perShard)
 	rn := &runner{res: res, cs: cs, tier: a.Tier, budget: 400000}
 	if a.Tier == "thorough" {
 		rn.budget = 8000000
@@ -1141,6 +1477,13 @@ func main() {
 		}
 		rn.history(p)
 		h++
+	}
+	nl := 2
+	if a.Tier == "thorough" {
+		nl = 8
+	}
+	for i := 0; i < nl; i++ {
+		rn.leveldbHistory(rng.U64(), i)
 	}
 	res.Histogram["histories"] = h
 	res.Histogram["disk-commits"] = rn.commits
